@@ -10,6 +10,13 @@ Monitors
       (vmon/ref/gradref.py: dense embedded unitaries, einsum Knill-Laflamme, Daleckii-Krein for the matrix functions).
   (c) workload-level checks of `.grad` after `backward()` against BOTH central finite differences of numqi's public
       forward and autograd through the reference re-implementation of the whole loss.
+  (d) argument-mutation contracts: arguments, saved tensors and grad_output of every custom forward/backward and of the
+      per-gate adjoint rules (`sim.state.apply_gate_grad`, `apply_control_n_gate_grad`) are snapshotted at call time; the
+      postconditions are judged against the snapshot and any in-place modification is reported as `<fn>/mutates-...`.
+  (e) histories / call order / layout (shards `history-*`): one wrapper or tensor object differentiated repeatedly with
+      in-place updates in between, one cotangent re-used for two backward passes, stride-0 cotangents (out.sum()/mean()),
+      the same configurations in several call orders inside one process with one repeated at the end, batched == per item,
+      transposed / strided / conjugate-view / permuted-batch / single-precision / real-dtype inputs.
 """
 import math
 import os
